@@ -977,7 +977,9 @@ def rhist : List ResourceUpd.Op :=
    .update .primary ⟨0, []⟩]
 example : (ResourceUpd.run (rhist.take 6)).live.map (·.rm) = some ⟨⟨0, 0, 0, 0⟩, ⟨1, 0, 1, 0⟩⟩ := by decide
 example : (ResourceUpd.run (rhist.take 8)).live.map (·.rm) = some ⟨⟨0, 3, 0, 0⟩, ⟨1, 0, 1, 0⟩⟩ := by decide
-example : (ResourceUpd.run (rhist.take 9)).live.map (·.rm) = some ⟨⟨2, 2, 2, 2⟩, ⟨0, 0, 0, 0⟩⟩ := by decide
+-- (c10p10) a change of the cluster type hands the manager over as well since the fix of UpdateClusterResourceManagerHandler
+-- (the type guard is gone, `handler_typeGuard = false`): the counters survive, the thresholds are the new ones
+example : (ResourceUpd.run (rhist.take 9)).live.map (·.rm) = some ⟨⟨2, 2, 2, 2⟩, ⟨1, 0, 1, 0⟩⟩ := by decide
 example : (ResourceUpd.run (rhist.take 10)).live = none ∧ (ResourceUpd.run rhist).live.map (·.rm.max) = some ⟨0, 0, 0, 0⟩ := by decide
 -- counters_survive_update's hypotheses
 example : ∃ l, (ResourceUpd.run (rhist.take 5)).live = some l ∧ l.typ = (⟨0, []⟩ : ResourceUpd.Cfg).typ ∧ l.rm.cur = ⟨1, 0, 1, 0⟩ :=
